@@ -99,6 +99,16 @@ type abortT struct{}
 
 func (abortT) Error() string { return "verifrt: run aborted" }
 
+type shadowTimeoutT struct{}
+
+func (shadowTimeoutT) Error() string { return "verifrt: reference execution exceeded its step budget" }
+
+// ShadowTimeout is the panic value raised when a Shadow execution exceeds its
+// step budget.
+var ShadowTimeout = shadowTimeoutT{}
+
+var shadowBudget int64
+
 // Abort is the sentinel panic value used to unwind tasks when a run is aborted.
 var Abort = abortT{}
 
@@ -184,6 +194,14 @@ func EndOp() int {
 
 // Yield is called before every statement of the instrumented library.
 func Yield(site uint32) {
+	if shadowBudget > 0 {
+		// reference execution (yields are otherwise ignored): only a step budget
+		shadowBudget--
+		if shadowBudget == 0 {
+			panic(ShadowTimeout)
+		}
+		return
+	}
 	if !on || quiet > 0 {
 		return
 	}
